@@ -368,8 +368,16 @@ func (h *harness) genContext(qs []vh.GQuad, mode11 bool, base string) (*JV, map[
 		put("@base", jstr(b))
 		feat["ctx:@base"] = true
 	}
-	if r.Chance(15) {
-		put("@language", jstr(h.genLangTag()))
+	if r.Chance(30) {
+		// a default language the dataset actually uses, so that plain strings can stand for tagged ones
+		tag := h.genLangTag()
+		for _, q := range qs {
+			if q.O.Kind == vh.KLit && q.O.DT == vh.RDFLangString && r.Chance(50) {
+				tag = q.O.Lang
+				break
+			}
+		}
+		put("@language", jstr(tag))
 		feat["ctx:@language"] = true
 	}
 	// prefixes
@@ -532,6 +540,7 @@ type choices struct {
 	mode11  bool
 	base    string
 	context *JV
+	local   *JV     // context put on some embedded node objects and graph members
 	flags   [6]bool // nest, lists, anonTop, natives, useType, compactGroups
 	shape   int
 	seed    int
@@ -550,7 +559,11 @@ func (c choices) String() string {
 	if c.context != nil {
 		cx = string(c.context.text())
 	}
-	return fmt.Sprintf("mode=%s base=%q choices=%s context=%s", modeTok(c.mode11), c.base, c.wire(), cx)
+	lx := "-"
+	if c.local != nil {
+		lx = string(c.local.text())
+	}
+	return fmt.Sprintf("mode=%s base=%q choices=%s context=%s local=%s", modeTok(c.mode11), c.base, c.wire(), cx, lx)
 }
 
 func (h *harness) genChoices(qs []vh.GQuad) (choices, map[string]bool) {
@@ -565,6 +578,9 @@ func (h *harness) genChoices(qs []vh.GQuad) (choices, map[string]bool) {
 	var feat map[string]bool
 	if r.Chance(70) {
 		c.context, feat = h.genContext(qs, c.mode11, c.base)
+	}
+	if r.Chance(45) {
+		c.local = h.genLocalContext(qs, c.context)
 	}
 	return c, feat
 }
@@ -630,4 +646,39 @@ func profileOf(qs []vh.GQuad, p string) predProfile {
 		}
 	}
 	return pr
+}
+
+// genLocalContext invents a context for embedded node objects and graph members: it extends the inherited
+// one (more terms, another vocabulary or default language, or a reset of the language) and is, like the
+// document context, only tried by the Lean writer.
+func (h *harness) genLocalContext(qs []vh.GQuad, outer *JV) *JV {
+	r := h.r
+	preds, others, _ := datasetIRIs(qs)
+	ctx := &JV{kind: jObj, ms: []jmember{}}
+	for i, n := 0, r.Intn(3); i < n && len(preds) > 0; i++ {
+		p := vh.Pick(r, preds)
+		name := vh.Pick(r, []string{"lp", "lq", "name", "p", "label"})
+		if ctx.get(name) != nil {
+			continue
+		}
+		if r.Chance(60) {
+			ctx.ms = append(ctx.ms, jm(name, jstr(p)))
+		} else {
+			ctx.ms = append(ctx.ms, jm(name, jobj(jm("@id", jstr(p)), jm("@type", jstr(vh.Pick(r, []string{"@id", "@vocab"}))))))
+		}
+	}
+	if r.Chance(25) && len(preds) > 0 {
+		ctx.ms = append(ctx.ms, jm("@vocab", jstr(nsOf(vh.Pick(r, preds)))))
+	}
+	switch r.Intn(6) {
+	case 0:
+		ctx.ms = append(ctx.ms, jm("@language", jnull()))
+	case 1:
+		ctx.ms = append(ctx.ms, jm("@language", jstr(h.genLangTag())))
+	}
+	if r.Chance(15) && len(others) > 0 {
+		ctx.ms = append(ctx.ms, jm("lx", jstr(nsOf(vh.Pick(r, others)))))
+	}
+	_ = outer
+	return ctx // possibly {}: an empty local context still makes the processor clone the active context
 }
